@@ -528,7 +528,36 @@ def r7_drain(report, repo):
   report.expect_instances(rule, n, 1, 'closed-stream raises')
 
 
+def r8_banner(report, repo):
+  rule = 'C15-R8'
+  report.rule(rule, 'T-ARGS: AdbConnection.__init__ takes system type, serial '
+              'and banner from the CNXN banner with a split bounded to three '
+              'fields (the banner component may itself contain the separator) '
+              'and a malformed banner raises AdbProtocolError')
+  f = repo.func(AP, 'AdbConnection.__init__')
+  bp = lib.param_names(f.node)[3]
+  g = lib.cfg(f)
+  splits = [(n, c) for n, c in lib.nodes_with_call(g, attr='split')
+            if any(dotted(v) == bp for v in lib.value_exprs(g, n, c.func.value))]
+  for n, c in splits:
+    kw = {k.arg: k.value for k in c.keywords}
+    lim = c.args[1] if len(c.args) > 1 else kw.get('maxsplit')
+    ok = isinstance(lim, ast.Constant) and lim.value == 2
+    report.check(ok, rule, f.qualname, 'bounded-split', c,
+                 'banner split bounded to 3 fields',
+                 'the CNXN banner is split without maxsplit=2: a banner text '
+                 'that contains the separator is truncated or rejected')
+  attrs = {dotted(t) for n in g.nodes if n.kind == 'stmt' and n.ast is not None
+           for t in core.assigned_targets(n.ast)}
+  missing = [a for a in ('self.systemtype', 'self.serial', 'self.banner')
+             if a not in attrs]
+  report.check(not missing, rule, f.qualname, 'fields', f.node,
+               'systemtype, serial and banner are set from the CNXN banner',
+               'AdbConnection.__init__ no longer sets %s' % missing)
+
+
 def run(report, repo):
+  report.guard(r8_banner, report, repo)
   report.guard(r1_r2_connect, report, repo)
   report.guard(r3_ids, report, repo)
   report.guard(r4_open, report, repo)
